@@ -153,6 +153,8 @@ def call_value(self: Exec, f, args, kwargs, node=None):
   if isinstance(f, TypeTag):
     # calling a class: exceptions only
     return ExcVal(f, args)
+  if isinstance(f, SV) and getattr(f.sort, 'call_hook', None):
+    return f.sort.call_hook(self, f, args, kwargs)
   if isinstance(f, SV) and isinstance(f.sort, Union) and not self.spec_mode:
     inner = self.unwrap(f)
     if inner is not f and isinstance(inner, SV):
@@ -230,6 +232,8 @@ def define_specfn(self: Exec, sf: C.SpecFn):
   want = {c.get_id() for c in consts}
 
   def fv(e, acc):
+    if z3.is_var(e):
+      acc.add('inner-bound')  # mentions a variable of a nested quantifier: not usable as a trigger
     if z3.is_const(e) and e.get_id() in want:
       acc.add(e.get_id())
     for ch in e.children():
@@ -241,6 +245,8 @@ def define_specfn(self: Exec, sf: C.SpecFn):
     if e.get_id() in seen:
       return
     seen.add(e.get_id())
+    if z3.is_quantifier(e):
+      return
     if z3.is_app(e) and e.num_args() > 0 and (e.decl().kind() == z3.Z3_OP_UNINTERPRETED or e.decl().kind() == z3.Z3_OP_SELECT):
       if fv(e, set()) == want and not z3.eq(e, app):
         alts.append(e)
@@ -354,7 +360,13 @@ def apply_contract(self: Exec, sp: C.FnSpec, args, kwargs):
     callee_m = self.coerce(self.eval_spec_value(sp.decreases, env), INT).t
     self.oblige(z3.And(callee_m >= 0, callee_m < self._entry_measure), f'decreases:{tag}')
   # exceptional outcomes
-  if sp.raises or sp.raises_any:
+  if (sp.raises or sp.raises_any) and self.bound_vars:
+    # under binders (comprehension elements) a path cannot fork per element: the callee's raise
+    # conditions are ASSUMED false here; the enclosing contract's precondition must exclude them
+    for exn, cond in sp.raises.items():
+      self.assume(z3.Not(self.eval_spec(cond, env)))
+    self.notes.append(f'{sp.short} called under a binder: its raise conditions are assumed false (must follow from the precondition)')
+  elif sp.raises or sp.raises_any:
     opts = []
     conds = {}
     for exn, cond in sp.raises.items():
